@@ -23,6 +23,7 @@ import (
 	"strconv"
 	"strings"
 	"sync"
+	"sync/atomic"
 	"time"
 )
 
@@ -322,6 +323,7 @@ func RunFamily(f Family, o Options) *FamilyReport {
 	// drive the real code
 	td := time.Now()
 	outs := make([]*Outcome, len(cases))
+	var completed atomic.Int64
 	var wg sync.WaitGroup
 	ch := make(chan int, 256)
 	nw := o.Workers
@@ -337,17 +339,36 @@ func RunFamily(f Family, o Options) *FamilyReport {
 					Prelude(&cases[i])
 				}
 				outs[i] = f.Run(&cases[i])
+				completed.Add(1)
 				if len(cases) > 20000 {
 					outs[i].Replay = nil // regenerated for the few cases that need a replay file
 				}
 			}
 		}()
 	}
+	// watchdog: a check never hangs -- if no case completes for a long time the run ends as a tool error
+	stopWatch := make(chan struct{})
+	go func() {
+		last, lastAt := int64(-1), time.Now()
+		for {
+			select {
+			case <-stopWatch:
+				return
+			case <-time.After(5 * time.Second):
+				if c := completed.Load(); c != last {
+					last, lastAt = c, time.Now()
+				} else if time.Since(lastAt) > 15*time.Minute {
+					Fatal("family %s: no case has completed for 15 minutes (a call into the library does not return?)", f.Name())
+				}
+			}
+		}
+	}()
 	for i := range cases {
 		ch <- i
 	}
 	close(ch)
 	wg.Wait()
+	close(stopWatch)
 	rep.DriverWall = time.Since(td).Seconds()
 
 	// record the trace
